@@ -372,8 +372,9 @@ namespace BitSerializer::Convert::Detail
 			if (utc.Year >= 10000) {
 				*pos++ = '+';
 			}
-			const size_t outSize = snprintf(pos, endPos - pos, "%04" PRId64 "-%02d-%02dT%02d:%02d:%02d", utc.Year, utc.Month, utc.Day, utc.Hour, utc.Min, utc.Sec);
-			if (outSize > 0)
+			const int outSize = snprintf(pos, endPos - pos, "%04" PRId64 "-%02d-%02dT%02d:%02d:%02d", utc.Year, utc.Month, utc.Day, utc.Hour, utc.Min, utc.Sec);
+			// The returned size is the length of the whole text even when it was truncated to fit the buffer
+			if (outSize > 0 && outSize < endPos - pos)
 			{
 				pos += outSize;
 				if (utc.SecFractions) {
